@@ -19,7 +19,18 @@ ASSUMPTIONS = ["the final re-sampling exists only if at least one poll iteration
 
 def specs_for(ctx):
     sd = ctx.seed * 10
-    specs = [s for s in S.panel(ctx.tier, ctx.seed) if s["noise"] != "det"][:6]
+    specs = [s for s in S.panel(ctx.tier, ctx.seed) if s["noise"] != "det"][:(6 if ctx.quick else 40)]
+    if not ctx.quick:
+        # thorough: the end-game in every noise mode x number of final samples x where the run stops (iteration 1, 2, later; budget / max_iter)
+        k = 0
+        for noise in ("specified", "declared", "auto"):
+            for nfs in (0, 1, 2, 3, 10):
+                for stop in (dict(max_iter=2), dict(max_iter=3), dict(max_fun_evals=45), dict(max_fun_evals=75)):
+                    o = dict(max_fun_evals=70, noise_final_samples=nfs)
+                    o.update(stop)
+                    k += 1
+                    specs.append(dict(D=1 + k % 3, target=("sphere", "abs", "ellipsoid")[k % 3], box=("sym", "log", "sym", "tight")[k % 4], noise=noise,
+                                      sigma=(0.3, 0.05, 1.0)[k % 3], options=o, seed=sd + 100 + k))
     specs += [
         dict(D=2, target="sphere", box="sym", noise="specified", sigma=0.3, options=dict(max_fun_evals=60, noise_final_samples=1), seed=sd + 1),
         dict(D=2, target="sphere", box="sym", noise="specified", sigma=1.0, options=dict(max_fun_evals=80, noise_final_samples=10), seed=sd + 2),
